@@ -226,13 +226,69 @@ fn record(cell: &Cell, rep: &mut Report) {
     }
 }
 
+/// Replace (and a miss) must store and return the caller's own new value even when another writer
+/// publishes the key while the value is being populated.
+fn concurrent_programs() -> Vec<(crate::sched::Program, crate::props::e1::Mode)> {
+    use crate::ops::{Act, Op, Pop};
+    use crate::props::e1::{self, api, planted, Mode};
+    use crate::world::{Size, Val};
+    let k = e1::key1();
+    let mut out = Vec::new();
+    for (front, cfg) in [("stack", e1::stack_cfg(1 << 40)), ("plain", e1::plain_cfg(1 << 40))] {
+        let ro = planted("@k", Val::new(21, Size::Five), false, 50);
+        let own = planted("k", Val::new(0, Size::Five), false, 3);
+        let v = |t: usize| e1::wval(t, 0, Size::One);
+        let mut add = |name: &str, pre: Vec<crate::sched::Planted>, other: Op| {
+            let pre = if front == "stack" { pre } else { pre.into_iter().filter(|p| !p.rel.starts_with('@')).collect() };
+            out.push((
+                crate::sched::Program {
+                    name: format!("replace-{}-{}", front, name),
+                    cfg: cfg.clone(),
+                    pre,
+                    threads: e1::own_handles(vec![vec![api(Op::Gou(k.clone(), Act::Replace, Pop::Value(v(0))))], vec![api(other)]], false),
+                    create_write_dir: true,
+                },
+                Mode::Bounded(2),
+            ));
+        };
+        add("secondary|set", vec![ro.clone()], Op::Set(k.clone(), v(1)));
+        add("secondary|put", vec![ro.clone()], Op::Put(k.clone(), v(1)));
+        add("primary|set", vec![ro.clone(), own.clone()], Op::Set(k.clone(), v(1)));
+        add("secondary|ensure", vec![ro.clone()], Op::Ensure(k.clone(), Pop::Value(v(1))));
+    }
+    out
+}
+
+fn concurrent_check(x: &crate::sched::Execution) -> Vec<(String, String)> {
+    use crate::ops::{Act, Op, Pop};
+    let mut bad = Vec::new();
+    for r in &x.history {
+        if let crate::sched::POp::Api(Op::Gou(_, Act::Replace, Pop::Value(v))) = &r.op {
+            // when there was something to replace (judge consulted) or nothing at all (miss), the call returns
+            // its own freshly populated value
+            match &r.outcome.res {
+                Res::Hit(b) if b == &v.bytes() => {}
+                Res::Hit(b) if r.outcome.judge.is_empty() => {
+                    // a miss: put semantics, the winner's value may legitimately come back
+                    let _ = b;
+                }
+                other => bad.push((
+                    "replace-returned-other-value".into(),
+                    format!("get_or_update with Replace (judge consulted: {}) returned {}, not the value it populated ({})", !r.outcome.judge.is_empty(), other.label(), v.label()),
+                )),
+            }
+        }
+    }
+    bad
+}
+
 pub fn run(_tier: Tier, shard: Shard, rep: &mut Report) {
     rep.rule = "full matrix: write side {none, plain, sharded(3)} x read-only list {[], [p], [s], [p,p], [p,s], [s,p], [s,s]} x \
         per-level content {nothing, A, B} (sharded levels: value in the primary or the secondary shard) x operation {get, touch, \
         set, put, set_temp_file, put_temp_file, ensure, get_or_update x {Accept, Promote, Replace}} x populate {value, error}, no \
         checker; oracle = stack-resolution reference model on result, judge arguments, populate arguments, per-level before/after \
-        snapshots, trace (no level after the first hit is touched), temp-file and source residue. Non-trivial = >= 2 levels and \
-        at least one copy present."
+        snapshots, trace (no level after the first hit is touched), temp-file and source residue. Plus: get_or_update with Replace racing with another writer of the same key (all \
+        schedules with <= 2 preemptions): it must return the value it populated. Non-trivial = >= 2 levels and at least one copy present."
         .into();
     rep.assumptions = vec!["value identities A/B/C are 5-byte/1-byte files; sizes are varied in C03/C01".into()];
     let all = cells();
@@ -246,8 +302,17 @@ pub fn run(_tier: Tier, shard: Shard, rep: &mut Report) {
         }
     }
     rep.fact("cells_total", serde_json::json!(all.len()));
+    let progs = concurrent_programs();
+    let mut chk = |_pi: usize, x: &crate::sched::Execution| concurrent_check(x);
+    crate::props::e1::explore_all("C13", &progs, shard, rep, &|_| crate::sched::RunOpts::default(), &mut chk, 500_000);
 }
 
 pub fn replay(case: &Value, rep: &mut Report) {
+    if case.get("program").is_some() {
+        let progs: Vec<crate::sched::Program> = concurrent_programs().into_iter().map(|p| p.0).collect();
+        let mut chk = |x: &crate::sched::Execution| concurrent_check(x);
+        crate::props::e1::replay_case("C13", &progs, case, rep, &|| crate::sched::RunOpts::default(), &mut chk);
+        return;
+    }
     record(&Cell::from_json(case), rep);
 }
